@@ -21,6 +21,7 @@ uint64_t nondet_u64(void) { return 0; }
 uint8_t  nondet_u8(void) { return 0; }
 int64_t  nondet_i64(void) { return 0; }
 bool     nondet_bool(void) { return false; }
+float    nondet_float(void) { return 1.0f; }
 void out_res(uint64_t step, uint64_t op, uint64_t k, uint64_t ok, uint64_t val, uint64_t cnt, uint64_t n, uint64_t size)
 {
     printf("r %llu %llu %llu %llu %llu %llu %llu %llu\n", (unsigned long long)step, (unsigned long long)op, (unsigned long long)k, (unsigned long long)ok,
